@@ -159,7 +159,7 @@ def explore(fn, budget_s=60.0, per_path_timeout=15.0, seed=0, sample_every=0,
                             if ndecisions > 0:
                                 res.symbolic_holds += 1
                             want = len(res.samples) < max_samples and (
-                                sample_every and res.holds % sample_every == 1 or
+                                sample_every and (res.holds - 1) % sample_every == 0 or
                                 (not sample_every and res.holds in (1, 2, 5, 20, 100, 500)))
                             if want:
                                 space.detach_path()
